@@ -29,9 +29,11 @@ check('C07', 'exploration',
       'DESIGN.md §3 C07')
 check('C01', 'exploration',
       'deviation-bounded exhaustive exploration of the configuration space + exhaustive small data alphabet',
-      'Every configuration of the seven mixture models that departs from the defaults in <= 2 (quick) / 3 (thorough) '
-      'options, the full product model x tying x data kind x start, and all data sets over the Gaussian-integer '
-      'alphabet (D=2, N<=3) are fitted with the real trainers; every E-step result (iteration hook), predict and '
+      'Every configuration of the seven mixture models that departs from the defaults in <= 2 (quick) / 4 (thorough, '
+      '485 520 configurations) options, the full product model x tying x data kind x start, and all data sets over '
+      'the Gaussian-integer alphabet (D=2, N<=3) are fitted with the real trainers; the shared posterior routine is '
+      'run on every log-density vector over a 7-value alphabet spanning the exp() range x every activity pattern x '
+      'weights incl. exact zeros x clip (32 830 cases); every E-step result (iteration hook), predict and '
       'fit_predict output is checked for shape/finite/[0,1]/sum-to-one/mask zeros and compared with an independent '
       'Bayes rule built from the public component log_pdf and the stored weights; initializers for all K<=6, N<=12.',
       'An exception is accepted where the property allows it (degenerate data kinds, too few frames, K=1, a class '
